@@ -66,7 +66,7 @@ MUST_REACH = ['debian.deb822:Deb822._internal_parser',
               'debian.deb822:_gpg_multivalued.__init__',
               'debian.deb822:_AutoDecoder.decode']
 
-DOCS = {'quick': 2400, 'thorough': 150000}      # random documents (TOTAL over shards); + the enumerated grid
+DOCS = {'quick': 3600, 'thorough': 200000}      # random documents (TOTAL over shards); + the enumerated grid
 
 FLOORS = {
     'quick': {'nontrivial': 1200,
